@@ -77,3 +77,48 @@ Section Equivariance.
   Qed.
 End Equivariance.
 
+
+(* Equivariance when the renamed graph is only known on a set S of files that
+   contains the roots and is closed under imports (the files the scanner has
+   visited): the DFS never leaves S, so nothing else is needed. *)
+Section EquivarianceOn.
+  Variable rho : Z -> Z.
+  Hypothesis rho_inj : forall x y, rho x = rho y -> x = y.
+  Variables g g' : Z -> list Z.
+  Variable S : Z -> Prop.
+  Hypothesis S_closed : forall n c, S n -> In c (g n) -> S c.
+  Hypothesis g'_spec : forall n, S n -> g' (rho n) = map rho (g n).
+
+  Lemma fold_visit_equiv_on fuel
+    (IH : forall n st, S n -> visit fuel g' (rho n) (map_st rho st) = map_st rho (visit fuel g n st)) :
+    forall cs st, (forall c, In c cs -> S c) ->
+      fold_left (fun s c => visit fuel g' c s) (map rho cs) (map_st rho st)
+      = map_st rho (fold_left (fun s c => visit fuel g c s) cs st).
+  Proof.
+    induction cs as [|c cs IHc]; intros st HS; cbn [fold_left map]; [reflexivity|].
+    rewrite IH by (apply HS; now left). apply IHc. intros; apply HS; now right.
+  Qed.
+
+  Lemma visit_equiv_on : forall fuel n st, S n ->
+    visit fuel g' (rho n) (map_st rho st) = map_st rho (visit fuel g n st).
+  Proof.
+    induction fuel as [|f IH]; intros n [[vis ord]|] HS; cbn [visit map_st]; try reflexivity;
+      rewrite (memz_map rho rho_inj); destruct (memz n vis); cbn [map_st]; try reflexivity.
+    rewrite g'_spec by exact HS.
+    change (Some (rho n :: map rho vis, map rho ord)) with (map_st rho (Some (n :: vis, ord))).
+    rewrite (fold_visit_equiv_on f IH) by (intros c Hc; eapply S_closed; eauto).
+    destruct (fold_left (fun s c => visit f g c s) (g n) (Some (n :: vis, ord))) as [[v o]|];
+      cbn [map_st map]; reflexivity.
+  Qed.
+
+  Lemma reach_order_equiv_on fuel roots : (forall r, In r roots -> S r) ->
+    reach_order fuel g' (map rho roots) = option_map (map rho) (reach_order fuel g roots).
+  Proof.
+    intro HR. unfold reach_order.
+    change (Some ([], [])) with (map_st rho (Some ([], []))) at 1.
+    rewrite (fold_visit_equiv_on fuel (visit_equiv_on fuel)) by exact HR.
+    destruct (fold_left (fun s c => visit fuel g c s) roots (Some ([], []))) as [[v o]|];
+      cbn [map_st option_map]; [|reflexivity].
+    now rewrite map_rev.
+  Qed.
+End EquivarianceOn.
